@@ -2,6 +2,6 @@ SPECIFICATION Spec
 CONSTANTS
   MaxTok = 4
   MaxCut = 2
-INVARIANTS ConsumedInside WholeDoc OpenNeverComplete
+INVARIANTS ConsumedInside WholeDoc OpenNeverComplete BadKeyNeverComplete
 CONSTRAINT Emit
 CHECK_DEADLOCK FALSE
